@@ -150,8 +150,12 @@ def prints(path, tag):
             m = PRINT_RE.match(line)
             if not m:
                 continue
+            body = m.group(2)
+            if "TRUE" in body or "FALSE" in body:
+                body = re.sub(r'(?<=, )TRUE\b', "true", body)
+                body = re.sub(r'(?<=, )FALSE\b', "false", body)
             try:
-                yield json.loads("[" + m.group(2) + "]")
+                yield json.loads("[" + body + "]")
             except json.JSONDecodeError:
                 continue
 
